@@ -32,6 +32,7 @@ type RunCfg struct {
 	Auto      bool              `json:"auto,omitempty"` // real scheduling / quota / inspect loops instead of manual cycles
 	Extra     map[string]string `json:"extra,omitempty"`
 	Race      bool              `json:"race,omitempty"`
+	Engine    string            `json:"engine,omitempty"`  // "" = scheduler (engine S), "events" = pkg/events only (engine E)
 	Freeze    bool              `json:"freeze,omitempty"`     // record crash points (frozen shim knowledge) for C12
 	Restore   *FrozenState      `json:"restore,omitempty"`    // start as the core after a crash: replay this shim knowledge first
 	ExpectSig string            `json:"expect_sig,omitempty"` // replay: the violation this file reproduces
